@@ -146,12 +146,12 @@ def unitOps : SinkOps Unit :=
     startTagHint := fun _ _ _ => ((), .ok .lex), endTagHint := fun _ _ => ((), .ok .lex) }
 
 example (a b : Bytes) (n : Nat) : OpsSim unitOps a b n (fun d _ _ => d = 0) (fun _ _ _ _ => True) :=
-  { tag := fun _ _ _ _ _ _ => Or.inr ⟨rfl, rfl⟩
-    nonTag := fun _ _ _ _ _ _ => Or.inr ⟨rfl, rfl⟩
+  { tag := fun _ _ _ _ _ _ => Or.inr ⟨rfl, fun _ => rfl⟩
+    nonTag := fun _ _ _ _ _ _ => Or.inr ⟨rfl, fun _ => rfl⟩
     text := fun _ _ _ d _ _ _ hd _ h0 => by omega
     textOk := fun _ _ _ _ => Or.inr rfl
-    startHint := fun _ _ _ _ _ => ⟨rfl, rfl⟩
-    endHint := fun _ _ _ _ => ⟨rfl, rfl⟩ }
+    startHint := fun _ _ _ _ _ => Or.inr ⟨rfl, fun _ => rfl⟩
+    endHint := fun _ _ _ _ => Or.inr ⟨rfl, fun _ => rfl⟩ }
 
 example (tbl : Table) (last : Bool) :
     MRel 0 0 0 Ab.none .none ((Parser.new tbl () .lex false).machine last) ((Parser.new tbl () .lex false).machine last) :=
